@@ -57,10 +57,15 @@ func schedHash(sw []seam.Switch) string {
 
 // taskProgram builds the stream of small programs one task evaluates.  Every
 // program interns symbols nobody used before (uniq) and converts symbols back.
-func taskProgram(t *tape.Tape, uniq string, n int) []string {
+func taskProgram(t *tape.Tape, uniq string, shared string, n int) []string {
 	var out []string
 	for j := 0; j < n; j++ {
 		u := fmt.Sprintf("%s_%d", uniq, j)
+		if t.Chance(1, 3) {
+			// the SAME never-seen symbols in several tasks of this run: two evaluations
+			// interning one new symbol at the same time, then converting it back
+			u = fmt.Sprintf("%s_%d", shared, t.Intn(3))
+		}
 		switch t.Pick(3, 3, 2, 2, 2, 2, 1) {
 		case 0:
 			out = append(out, fmt.Sprintf("a_%s := {k_%s: 1, j_%s: 2}; a_%s.keys", u, u, u, u))
@@ -218,8 +223,14 @@ func schedChild(args []string) int {
 		progs := make([][]string, k)
 		results := make([][]string, k)
 		panics := make([]string, k)
+		collide := t.Chance(1, 2)
 		for i := range progs {
-			progs[i] = taskProgram(t, fmt.Sprintf("r%d_t%d", *run, i), nprog)
+			progs[i] = taskProgram(t, fmt.Sprintf("r%d_t%d", *run, i), fmt.Sprintf("r%d_sh", *run), nprog)
+			if collide {
+				// collision run: every task starts by interning the same brand-new symbols
+				// and converting them back (evalEnv -> Env.Items -> SymHash2Str)
+				progs[i] = append([]string{fmt.Sprintf("\"c_r%d_a := 1; c_r%d_b := 2\".evalEnv", *run, *run)}, progs[i]...)
+			}
 			results[i] = make([]string, len(progs[i]))
 			res.Programs = append(res.Programs, strings.Join(progs[i], " ;; "))
 		}
